@@ -154,6 +154,27 @@ theorem line_self_contained (r : Row) (hok : Row.ok r) (out : List Char) (h : r.
         · exact padPanel_selfContained sl il a okl t1 t3 t4 (by rw [fl]; exact paintLine_selfContained l hl) t2 ha
         · exact padPanel_selfContained sr ir b okr u1 u3 u4 (by rw [fr]; exact paintLine_selfContained r hr) u2 hb
 
+/-- **Every row is rendered, and self-contained, whatever the cluster widths.** Since fix d6cf9d0 — the
+`debug_assert!(width_of_grapheme <= 2)` no longer stands in front of the fallback of `truncate_str_impl`:
+`truncateAssertsWideCluster = false`, read from `src/ansi/mod.rs` on every run — the truncation of a panel line has no
+panic point (a cluster wider than two columns that does not fit is replaced by as many blanks as columns are left), so
+`line_self_contained` holds without the proviso that the row is rendered at all. -/
+theorem line_self_contained_any_width (hno : Generated.StyleTables.truncateAssertsWideCluster = false) (r : Row)
+    (hok : Row.ok r) : ∃ out, r.render = some out ∧ selfContained out := by
+  obtain ⟨out, h⟩ := render_isSome hno r
+  exact ⟨out, h, line_self_contained r hok out h⟩
+
+/-- a three-column cluster (emoji with modifier, say) that does not fit in the two columns left next to the mark:
+two blanks, every escape sequence kept; before the fix: the assertion -/
+example : (if Generated.StyleTables.truncateAssertsWideCluster then
+      Line.truncate 4 [.esc "[7m".toList, .text [⟨"→".toList, 1⟩], .esc "[0m".toList] (some ' ')
+        [.esc "[31m".toList, .text [⟨['a'], 1⟩, ⟨"👍🏽x".toList, 3⟩, ⟨['c'], 1⟩], .esc "[0m".toList] = none
+    else
+      Line.truncate 4 [.esc "[7m".toList, .text [⟨"→".toList, 1⟩], .esc "[0m".toList] (some ' ')
+        [.esc "[31m".toList, .text [⟨['a'], 1⟩, ⟨"👍🏽x".toList, 3⟩, ⟨['c'], 1⟩], .esc "[0m".toList] =
+      some [.esc "[31m".toList, .text [⟨['a'], 1⟩, ⟨[' '], 1⟩, ⟨[' '], 1⟩], .esc "[0m".toList,
+            .esc "[7m".toList, .text [⟨"→".toList, 1⟩], .esc "[0m".toList]) := by decide
+
 example : (Row.unified [({ fg := some (.basic 4) }, .linked "file:///f".toList " 12 ".toList),
       ({ bg := some (.fixed 22) }, .plain "added".toList)] (.ansi { bg := some (.fixed 22) })).render.isSome = true := by
   decide
